@@ -20,6 +20,13 @@ pub struct Pair { a: Nat, b: Option<String> }
 #[derive(CandidType, Deserialize, Debug, PartialEq, Clone)]
 pub struct Renamed { #[serde(rename = "class")] x: u8, #[serde(rename = "a b")] y: Int, #[serde(rename = "\u{e9}t\u{e9}")] z: bool }
 #[derive(CandidType, Deserialize, Debug, PartialEq, Clone)]
+pub struct Données { x: u8, suite: Option<Box<Données>> }
+#[derive(CandidType, Deserialize, Debug, PartialEq, Clone)]
+pub enum État { Arrêt, Marche(Nat), Voisin(Box<Données>) }
+#[allow(non_camel_case_types)]
+#[derive(CandidType, Deserialize, Debug, PartialEq, Clone)]
+pub struct r#type { r#fn: u8, class_: Int }
+#[derive(CandidType, Deserialize, Debug, PartialEq, Clone)]
 pub struct Tup(Nat, i8, String);
 #[derive(CandidType, Deserialize, Debug, PartialEq, Clone)]
 pub struct Newt(Int);
@@ -158,6 +165,21 @@ where X: CandidType + for<'de> Deserialize<'de> + Debug + PartialEq {
                     Err(_) => if a[3] == "err" { "(err)".into() } else { "(bytes-changed-or-nondeterministic)".into() },
                 },
                 Err(_) => if a[3] == "err" { "(err)".into() } else { "(bytes-changed-or-nondeterministic)".into() },
+            }
+        }
+        // the type environment exported for X (TypeContainer, what export_service! uses) printed as .did text parses, checks, and
+        // every definition and the service are equal to the exported ones; printing is deterministic
+        "p.c12.export" => {
+            use candid::types::{Type, TypeInner, Function};
+            let mut tc = candid::types::internal::TypeContainer::new();
+            let t = tc.add::<X>();
+            let f: Type = TypeInner::Func(Function { modes: vec![], args: vec![t.clone()], rets: vec![t.clone(), TypeInner::Opt(t).into()] }).into();
+            let svc: Type = TypeInner::Service(vec![("m".to_string(), f)]).into();
+            let printed = candid::pretty::candid::compile(&tc.env, &Some(svc.clone()));
+            if printed != candid::pretty::candid::compile(&tc.env, &Some(svc.clone())) { return "FAIL printing is not deterministic".into(); }
+            match crate::ops::c12::load(&printed) {
+                Err(e) => format!("FAIL exported interface does not check: {} :: {}", e, printed),
+                Ok(re) => match crate::ops::c12::same_program(&(tc.env.clone(), Some(svc)), &re) { Ok(()) => "ok".into(), Err(e) => format!("FAIL exported interface changes when printed and re-checked: {} :: {}", e, printed) },
             }
         }
         "encode_of" => {
@@ -308,6 +330,7 @@ corpus! {
     "(BTreeSet<Nat>,Int,Vec<Int>,Nat)" => (BTreeSet<Nat>, Int, Vec<Int>, Nat), "(Vec<u8>,u8,Vec<u64>,i64)" => (Vec<u8>, u8, Vec<u64>, i64),
     "BV3" => BV3, "BVT" => BVT, "BVE" => BVE, "BVU" => BVU, "FnRef" => FnRef, "SvRef" => SvRef, "Vec<FnRef>" => Vec<FnRef>,
     "SvMany" => SvMany, "Opt<SvMany>" => Option<SvMany>,
+    "Donnees" => Données, "Etat" => État, "Gen<Etat,Donnees>" => Gen<État, Données>, "Vec<Etat>" => Vec<État>, "RawType" => r#type,
 }
 
 /// corpus types with host limits beyond the Candid type (128-bit integers, bounded vectors, fixed-size arrays)
